@@ -20,18 +20,18 @@ kani_unit("f64", "winter-math", F64, "kani/math_f64.rs", "field::f64", [
       "forall byte strings up to 26 bytes: Some exactly when the length is the element size (16 / 24) and every 8-byte coordinate is a canonical word; the decoded coordinates are canonical"),
     H("f64_into_ints_contract", ["C07"], ["f64::From<BaseElement> for u64|u128", "f64::TryFrom<BaseElement> for u8|u16|u32|bool"],
       "conversion returns as_int when it fits, Err otherwise"),
-    H("f64_add_contract", ["C07"], ["f64::Add::add", "f64::AddAssign"],
+    H("f64_add_contract", ["C07", "C08"], ["f64::Add::add", "f64::AddAssign"],
       "forall a,b < M: r < M, r == a+b mod M, val(r) == val(a)+val(b) mod M"),
-    H("f64_sub_contract", ["C07"], ["f64::Sub::sub", "f64::SubAssign"],
+    H("f64_sub_contract", ["C07", "C08"], ["f64::Sub::sub", "f64::SubAssign"],
       "forall a,b < M: r < M, r == a-b mod M, val(r) == val(a)-val(b) mod M"),
-    H("f64_neg_contract", ["C07"], ["f64::Neg::neg"], "forall a < M: r < M, r == -a mod M, val(r) == -val(a) mod M"),
-    H("f64_double_contract", ["C07"], ["f64::double"], "forall a < M: r < M, r == 2a mod M, val(r) == 2 val(a) mod M"),
+    H("f64_neg_contract", ["C07", "C08"], ["f64::Neg::neg"], "forall a < M: r < M, r == -a mod M, val(r) == -val(a) mod M"),
+    H("f64_double_contract", ["C07", "C08"], ["f64::double"], "forall a < M: r < M, r == 2a mod M, val(r) == 2 val(a) mod M"),
     H("f64_constants_contract", ["C07"], ["f64::MODULUS", "f64::GENERATOR", "f64::TWO_ADICITY", "f64::R2", "f64::get_modulus_le_bytes"],
       "published constants equal their documented values; R2 == 2^128 mod M; M-1 == 2^32 * odd"),
     H("f64_mul_small_contract", ["C07"], ["f64::mul_small"],
       "forall a < M, k: u32: r.0 == a.0*k (mod M) [witness] and r.0 < M", timeout=600),
     H("f64_equals_contract", ["C07"], ["f64::equals"], "equals(a,b) == (a==b ? 2^64-1 : 0) forall u64 pairs"),
-    H("f64_eq_contract", ["C07"], ["f64::PartialEq::eq"], "forall a,b < M: (a == b) <=> same raw word <=> same residue", timeout=900),
+    H("f64_eq_contract", ["C07", "C08"], ["f64::PartialEq::eq"], "forall a,b < M: (a == b) <=> same raw word <=> same residue", timeout=900),
     H("f64_serde_contract", ["C07", "C12"], ["f64::Serializable::write_into", "f64::Deserializable::read_from"],
       "write_into emits le(as_int) (8 bytes); read_from(write_into(a)) == a and consumes exactly 8 bytes"),
     H("f64_read_from_contract", ["C07", "C12", "C06"], ["f64::Deserializable::read_from"],
@@ -40,19 +40,19 @@ kani_unit("f64", "winter-math", F64, "kani/math_f64.rs", "field::f64", [
       "as_bytes/elements_as_bytes expose the 8-byte raw words (pointer checks on)"),
     H("f64_ext2_frobenius_contract", ["C08", "C07"], ["f64::ExtensibleField<2>::frobenius"],
       "forall x0, x1: frobenius([x0, x1]) == [x0 + x1, -x1] with valid representatives; it is an involution; it fixes exactly the base field"),
-    H("f64_canary_must_fail", ["C07"], [], "false claim: a+b == a-b", canary=True),
+    H("f64_canary_must_fail", ["C07", "C08"], [], "false claim: a+b == a-b", canary=True),
 ])
 
 kani_unit("f62", "winter-math", "math/src/field/f62/mod.rs", "kani/math_f62.rs", "field::f62", [
     H("f62_constants_contract", ["C07"], ["f62::M", "f62::U", "f62::TWO_ADICITY", "f62::get_modulus_le_bytes"],
       "M == 2^62 - 111*2^39 + 1; U*M == -1 mod 2^64; M-1 == 2^39 * odd; published constants"),
-    H("f62_add_contract", ["C07"], ["f62::add", "f62::Add::add", "f62::AddAssign"],
+    H("f62_add_contract", ["C07", "C08"], ["f62::add", "f62::Add::add", "f62::AddAssign"],
       "forall a,b < 2M: r < 2M, r == a+b-kM (k<=3), residue(r) == residue(a)+residue(b) mod M"),
-    H("f62_sub_contract", ["C07"], ["f62::sub", "f62::Sub::sub", "f62::SubAssign"],
+    H("f62_sub_contract", ["C07", "C08"], ["f62::sub", "f62::Sub::sub", "f62::SubAssign"],
       "forall a,b < 2M: r < 2M, residue(r) == residue(a)-residue(b) mod M"),
-    H("f62_neg_contract", ["C07"], ["f62::Neg::neg"], "forall a < 2M: r < 2M, residue(r) == -residue(a) mod M"),
-    H("f62_double_contract", ["C07"], ["f62::double"], "forall a < 2M: r < 2M, residue(r) == 2 residue(a) mod M"),
-    H("f62_normalize_eq_contract", ["C07"], ["f62::normalize", "f62::PartialEq::eq"],
+    H("f62_neg_contract", ["C07", "C08"], ["f62::Neg::neg"], "forall a < 2M: r < 2M, residue(r) == -residue(a) mod M"),
+    H("f62_double_contract", ["C07", "C08"], ["f62::double"], "forall a < 2M: r < 2M, residue(r) == 2 residue(a) mod M"),
+    H("f62_normalize_eq_contract", ["C07", "C08"], ["f62::normalize", "f62::PartialEq::eq"],
       "normalize returns the representative < M; a == b <=> same residue"),
     H("f62_try_from_contract", ["C07"], ["f62::TryFrom<u64|u128|[u8;8]>"], "Ok iff v < M; representative < 2M"),
     H("f62_try_from_slice_contract", ["C07", "C19"], ["f62::TryFrom<&[u8]>", "f62::Randomizable::from_random_bytes"],
@@ -62,16 +62,16 @@ kani_unit("f62", "winter-math", "math/src/field/f62/mod.rs", "kani/math_f62.rs",
     H("f62_inv_zero_contract", ["C07"], ["f62::inv"], "inv(0) == inv(M) == 0 (both representatives of zero; terminates)"),
     H("f62_ext2_frobenius_contract", ["C08", "C07"], ["f62::ExtensibleField<2>::frobenius"],
       "forall x0, x1: frobenius([x0, x1]) == [x0 + x1, -x1] with valid representatives; it is an involution; it fixes exactly the base field"),
-    H("f62_canary_must_fail", ["C07"], [], "false claim: add(a,b) < M", canary=True),
+    H("f62_canary_must_fail", ["C07", "C08"], [], "false claim: add(a,b) < M", canary=True),
 ])
 
 kani_unit("f128", "winter-math", "math/src/field/f128/mod.rs", "kani/math_f128.rs", "field::f128", [
     H("f128_constants_contract", ["C07"], ["f128::M", "f128::G", "f128::TWO_ADICITY", "f128::get_modulus_le_bytes"],
       "M == 2^128 - 45*2^40 + 1; M-1 == 2^40 * odd; generator 3; published constants"),
-    H("f128_add_contract", ["C07"], ["f128::add", "f128::Add::add", "f128::AddAssign"], "forall a,b < M: r < M and r == a+b mod M"),
-    H("f128_sub_neg_contract", ["C07"], ["f128::sub", "f128::Sub::sub", "f128::SubAssign", "f128::Neg::neg"],
+    H("f128_add_contract", ["C07", "C08"], ["f128::add", "f128::Add::add", "f128::AddAssign"], "forall a,b < M: r < M and r == a+b mod M"),
+    H("f128_sub_neg_contract", ["C07", "C08"], ["f128::sub", "f128::Sub::sub", "f128::SubAssign", "f128::Neg::neg"],
       "forall a,b < M: sub r < M, r == a-b mod M; neg(a) == -a mod M (canonical, -0 == 0); a + (-a) == 0"),
-    H("f128_new_as_int_eq_contract", ["C07"], ["f128::new", "f128::as_int", "f128::PartialEq", "f128::double"],
+    H("f128_new_as_int_eq_contract", ["C07", "C08"], ["f128::new", "f128::as_int", "f128::PartialEq", "f128::double"],
       "new(v) == v mod M (canonical); as_int is the raw word; == is equality of residues; double == a+a"),
     H("f128_conversions_contract", ["C07"], ["f128::From<u8|u16|u32|u64>", "f128::TryFrom<u128>"], "from(v) denotes v; try_from Ok iff v < M"),
     H("f128_try_from_slice_contract", ["C07", "C19"], ["f128::TryFrom<&[u8]>", "f128::Randomizable::from_random_bytes"],
@@ -86,7 +86,7 @@ kani_unit("f128", "winter-math", "math/src/field/f128/mod.rs", "kani/math_f128.r
     H("f128_sub_modulus_contract", ["C07"], ["f128::sub_modulus"], "sub_modulus(a) == a - M modulo 2^128"),
     H("f128_ext2_frobenius_contract", ["C08", "C07"], ["f128::ExtensibleField<2>::frobenius"],
       "forall x0, x1: frobenius([x0, x1]) == [x0 + x1, -x1] with valid representatives; it is an involution; it fixes exactly the base field"),
-    H("f128_canary_must_fail", ["C07"], [], "false claim: add(a,b) >= a", canary=True),
+    H("f128_canary_must_fail", ["C07", "C08"], [], "false claim: add(a,b) >= a", canary=True),
 ])
 
 PROPS["C07"] = dict(
@@ -114,16 +114,16 @@ PROPS["C07"] = dict(
     not_decided=[],
 )
 
-verus_unit("f64v", "f64", ["C07"], ["f64::mont_red_cst (bit-precise, from its body)", "f64::mont_to_int (bit-precise, from its body)", "f64::Add::add", "f64::Sub::sub", "f64::BaseElement::new", "f64::Mul::mul", "traits::FieldElement::square", "f64::exp", "f64::exp_acc", "f64::inv", "f64::exp7", "f64::Div::div", "f64::Neg::neg", "f64::StarkField::as_int", "f64::From<u32>", "traits::StarkField::get_root_of_unity (64-bit instantiation: order exactly 2^n for every admissible n)"])
-verus_unit("f62v", "f62", ["C07"], ["f62::mul", "f62::add", "f62::sub", "f62::normalize", "f62::Add/Sub/Mul/Neg", "f62::new", "f62::as_int", "f62::double", "square", "f62::eq", "f62::exp", "traits::FieldElement::exp_vartime (u64 instantiation)", "traits::StarkField::get_root_of_unity (62-bit instantiation: order exactly 2^n for every admissible n)", "f62::inv (partial correctness: x * inv(x) == 1 for x != 0, inv(0) == 0; termination of the Euclid loops not proved)"])
+verus_unit("f64v", "f64", ["C07", "C08"], ["f64::mont_red_cst (bit-precise, from its body)", "f64::mont_to_int (bit-precise, from its body)", "f64::Add::add", "f64::Sub::sub", "f64::BaseElement::new", "f64::Mul::mul", "traits::FieldElement::square", "f64::exp", "f64::exp_acc", "f64::inv", "f64::exp7", "f64::Div::div", "f64::Neg::neg", "f64::StarkField::as_int", "f64::From<u32>", "traits::StarkField::get_root_of_unity (64-bit instantiation: order exactly 2^n for every admissible n)"])
+verus_unit("f62v", "f62", ["C07", "C08"], ["f62::mul", "f62::add", "f62::sub", "f62::normalize", "f62::Add/Sub/Mul/Neg", "f62::new", "f62::as_int", "f62::double", "square", "f62::eq", "f62::exp", "traits::FieldElement::exp_vartime (u64 instantiation)", "traits::StarkField::get_root_of_unity (62-bit instantiation: order exactly 2^n for every admissible n)", "f62::inv (partial correctness: x * inv(x) == 1 for x != 0, inv(0) == 0; termination of the Euclid loops not proved)"])
 
 for _u, _fns in (("f64x", ["f64::ExtensibleField<2>::{mul,square,mul_base,frobenius}", "f64::ExtensibleField<3>::{mul,square,mul_base,frobenius}"]),
                  ("f62x", ["f62::ExtensibleField<2>::{mul,mul_base,frobenius}", "f62::ExtensibleField<3>::{mul,mul_base,frobenius}"]),
                  ("f128x", ["f128::ExtensibleField<2>::{mul,mul_base,frobenius}"])):
     verus_unit(_u, _u, ["C08"], _fns)
 
-verus_unit("f128v", "f128", ["C07"], ["f128::inv (partial correctness: canonical result, x * inv(x) == 1 mod p for x != 0, inv(0) == 0; termination not proved)", "f128::add_192x192", "f128::mul", "f128::add", "f128::sub", "f128::mul_reduce", "f128::mul_128x64", "f128::mul_by_modulus", "f128::sub_modulus", "f128::sub_192x192", "f128::add64_with_carry"])
-verus_unit("f128e", "f128e", ["C07"], ["f128::BaseElement::new", "f128::Add/Sub/Mul/Div/Neg", "f128::FieldElement::inv", "traits::FieldElement::double / square / exp / exp_vartime (u128 instantiation for the 128-bit field)", "traits::StarkField::get_root_of_unity (128-bit instantiation: order exactly 2^n for every admissible n)"])
+verus_unit("f128v", "f128", ["C07", "C08"], ["f128::inv (partial correctness: canonical result, x * inv(x) == 1 mod p for x != 0, inv(0) == 0; termination not proved)", "f128::add_192x192", "f128::mul", "f128::add", "f128::sub", "f128::mul_reduce", "f128::mul_128x64", "f128::mul_by_modulus", "f128::sub_modulus", "f128::sub_192x192", "f128::add64_with_carry"])
+verus_unit("f128e", "f128e", ["C07", "C08"], ["f128::BaseElement::new", "f128::Add/Sub/Mul/Div/Neg", "f128::FieldElement::inv", "traits::FieldElement::double / square / exp / exp_vartime (u128 instantiation for the 128-bit field)", "traits::StarkField::get_root_of_unity (128-bit instantiation: order exactly 2^n for every admissible n)"])
 verus_unit("fconsts", "fconsts", ["C07"], ["f64/f62/f128: MODULUS, TWO_ADICITY, TWO_ADIC_ROOT_OF_UNITY, GENERATOR"])
 verus_unit("extinv", "extinv", ["C08"], ["QuadExtension::inv", "CubeExtension::inv"])
 verus_unit("extwrap", "extwrap", ["C08"], ["QuadExtension / CubeExtension::{new, to_base_elements, base_element, double, square, conjugate, mul_base, From<B>}",
